@@ -527,7 +527,12 @@ func polExecute(t *testing.T, c polCase) polRun {
 			out.Panic = r
 		}
 	}()
-	synctest.Test(t, func(*testing.T) {
+	// polWall: the same run on the wall clock, outside a bubble (the real-clock part: timer semantics of the shipped binary)
+	runner := func(f func(*testing.T)) { synctest.Test(t, f) }
+	if polWall {
+		runner = func(f func(*testing.T)) { f(t) }
+	}
+	runner(func(*testing.T) {
 		h := &polHost{t0: time.Now(), autoconf: c.Autoconf0, fails: c.StateFails, dialLatency: time.Duration(c.DialNS)}
 		out.Host = h
 		vkHost = h
@@ -915,6 +920,84 @@ func polManyCycles(real bool) func(yield func(polCase) bool) {
 }
 
 var polCancels = []int64{0, 1, int64(50*time.Millisecond) + 1, int64(125*time.Millisecond) + 1, int64(300*time.Millisecond) + 1, int64(900*time.Millisecond) + 1, int64(2*time.Second) + 1}
+
+// polWall selects the wall clock for polExecute (set only by the real-clock part, whose binary runs nothing else).
+var polWall bool
+
+type polWallCase struct {
+	Cases []polCase `json:"cases"` // all run at the same time
+}
+
+// TestVerif_C10real: the recovery policy on the wall clock with the timer channels of the shipped binary (the bubble parts
+// need the Go 1.23 ones; see corerad/zz_verif_C05real_test.go). 24 scripted Dial runs at once per case, each at most 8 s by
+// the model, without cancellation. Oracle: the same sequence of attempts, task runs and clean-ups and the same result as the
+// reference policy, and no event earlier than the model says (every wait of the policy is a lower bound on the wall clock;
+// all instants are taken in the goroutine that performs the step).
+func TestVerif_C10real(t *testing.T) {
+	k := verifkit.Start(t, "C10")
+	polWall = true
+	k.Regress(t, func(sub string, raw json.RawMessage) error { return nil })
+	gen := func(t *rapid.T) polWallCase {
+		var wc polWallCase
+		shape := rapid.IntRange(0, 4).Draw(t, "errshape")
+		for len(wc.Cases) < 24 {
+			c := polCase{TaskNS: rapid.SampledFrom([]int64{0, int64(time.Millisecond), int64(100 * time.Millisecond)}).Draw(t, "task"), Mode: int(Monitor), ErrShape: shape}
+			for i, n := 0, rapid.IntRange(1, 12).Draw(t, "len"); i < n; i++ {
+				if rapid.Bool().Draw(t, "failing") {
+					c.Script = append(c.Script, rapid.SampledFrom([]int{dNotReady, dSyscall}).Draw(t, "f"))
+				} else {
+					c.Script = append(c.Script, rapid.IntRange(0, 6).Draw(t, "d"))
+				}
+			}
+			if tr := polModel(c); tr.Unspecified == "" && tr.ReturnAt <= 8*time.Second && tr.ReturnAt >= 250*time.Millisecond {
+				wc.Cases = append(wc.Cases, c)
+			}
+		}
+		return wc
+	}
+	prop := func(wc polWallCase) error {
+		k.Record(wc, true, "real-clock:policy-runs")
+		errs := make([]error, len(wc.Cases))
+		var wg sync.WaitGroup
+		for i, c := range wc.Cases {
+			wg.Add(1)
+			go func() {
+				defer wg.Done()
+				want := polModel(c)
+				got := polExecute(t, c)
+				got.Trace.Result = polClass(got.Err)
+				desc := fmt.Sprintf("script %v task=%v (wall clock, old timer semantics):\nwant %s\ngot  %s", c.Script, time.Duration(c.TaskNS), want.String(), got.Trace.String())
+				switch {
+				case got.Panic != nil:
+					errs[i] = verifkit.Violf("panic", "panic: %v", got.Panic)
+				case got.Trace.Result != want.Result:
+					errs[i] = verifkit.Violf("C10/real-clock/wrong-result", "%s", desc)
+				case len(got.Trace.Events) != len(want.Events):
+					errs[i] = verifkit.Violf("C10/real-clock/wrong-number-of-attempts", "%s", desc)
+				default:
+					for j, e := range got.Trace.Events {
+						if e.What != want.Events[j].What {
+							errs[i] = verifkit.Violf("C10/real-clock/policy-trace-differs", "%s", desc)
+							break
+						}
+						if e.At < want.Events[j].At-time.Millisecond {
+							errs[i] = verifkit.Violf("C10/real-clock/too-early", "step %d (%s) at %v, the policy waits until %v\n%s", j, e.What, e.At, want.Events[j].At, desc)
+							break
+						}
+					}
+				}
+			}()
+		}
+		wg.Wait()
+		for _, err := range errs {
+			if err != nil {
+				return err
+			}
+		}
+		return nil
+	}
+	verifkit.Rapid(k, t, "real-clock-policy-runs(old timer semantics)", k.N(1, 10), gen, prop)
+}
 
 func TestVerif_C10policy(t *testing.T) {
 	k := verifkit.Start(t, "C10")
